@@ -678,7 +678,7 @@ def replay(path):
     rep = d.get("replay", {})
     kind = rep.get("kind")
     ctx = core.Ctx("replay", "quick")
-    if kind in ("rogue", "genuine"):
+    if kind in ("rogue", "genuine", "rogue-content", "key-release"):
         ws = tlsrogue.replay(rep)
     elif kind == "name":
         ca, ca_key = Q.make_ca()
